@@ -19,9 +19,9 @@ rows = []
 for d in sorted(glob.glob("/verif/seeded/*/meta.json")):
     m = json.load(open(d))
     sid = m["id"]
-    if sid not in res or m.get("round", 1) != rnd:
+    if m.get("round", 1) != rnd or (sid not in res and m.get("status") != "obsolete"):
         continue
-    runs = res[sid]
+    runs = res.get(sid, {})
     caught = ["%s (%s)" % (p, ", ".join("`%s`" % s for s in sig[:2])) for p, (rc, sig) in runs.items() if rc == 1]
     missed = [p for p, (rc, sig) in runs.items() if rc != 1]
     summ = (m.get("summary") or "").replace("\n", " ").replace("|", "/")
